@@ -112,7 +112,16 @@ func constToValue(cv constant.Value) Value {
 	return nil
 }
 
+// valueExpr lets engine code pass an evaluated value where an expression is expected.
+type valueExpr struct {
+	ast.BadExpr
+	v Value
+}
+
 func (ec *evalCtx) eval(e ast.Expr) Value {
+	if ve, ok := e.(*valueExpr); ok {
+		return ve.v
+	}
 	if !ec.spec {
 		if tv, ok := ec.info.Types[e]; ok && tv.Value != nil {
 			if v := constToValue(tv.Value); v != nil {
@@ -204,6 +213,12 @@ func (ec *evalCtx) evalIdent(x *ast.Ident) Value {
 			return nilMarker{}
 		}
 		if v, ok := ec.scope[x.Name]; ok {
+			return v
+		}
+		if x.Name == failedKey {
+			return ec.failedLval().get()
+		}
+		if v, ok := ec.st.ghost["let:"+x.Name]; ok {
 			return v
 		}
 		if !ec.noLocals {
